@@ -1088,6 +1088,9 @@ impl Kanata {
         let layout = self.layout.bm();
         let custom_event = layout.tick();
         let mut live_reload_requested = false;
+        // Set when an action below ends caps-word: the keys of this tick, with caps-word's shift
+        // among them, have been sent already.
+        let mut caps_word_ended_after_read = false;
         let cur_keys = &mut self.cur_keys;
         cur_keys.extend(layout.keycodes());
         let num_states_when_keys_were_read = layout.states.len();
@@ -1676,7 +1679,10 @@ impl Kanata {
                             }
                             CapsWordRepressBehaviour::Toggle => {
                                 self.caps_word = match self.caps_word {
-                                    Some(_) => None,
+                                    Some(_) => {
+                                        caps_word_ended_after_read = true;
+                                        None
+                                    }
                                     None => Some(CapsWordState::new(cfg)),
                                 };
                             }
@@ -1855,8 +1861,8 @@ impl Kanata {
             _ => {}
         };
 
-        self.keystate_changed_after_read =
-            self.layout.bm().states.len() != num_states_when_keys_were_read;
+        self.keystate_changed_after_read = caps_word_ended_after_read
+            || self.layout.bm().states.len() != num_states_when_keys_were_read;
         self.check_release_non_physical_shift()?;
         Ok(live_reload_requested)
     }
